@@ -57,12 +57,12 @@ Check (C02_rejected_never_handled : forall s i r, reachable s -> result s i = So
   ~ In i (accepted s) /\ ~ In i (handled s) /\ (forall m, r = RErr m -> m = i)).
 
 (* ---- non-vacuity: three concurrent senders and a drain, explicit schedule that reaches
-   every pc of the send path (admitted, parked in box, rejected at the status gate,
+   every pc of the send path (granted, parked in box, rejected at the status gate,
    rejected at the admission word) ---- *)
 Definition msg (p : nat) : call := CSend p false true false false [] [].
 Definition ex_labels : list label :=
   [LSpawn (msg 1); LSpawn (msg 2); LSpawn (msg 3); LSpawn CDrain;
-   LS 0; LS 0; LS 0; LS 0;        (* sender 0: T0 S0 S1 SA -> admitted *)
+   LS 0; LS 0; LS 0; LS 0;        (* sender 0: T0 S0 S1 SA -> granted *)
    LS 1; LS 1; LS 1;              (* sender 1: T0 S0 S1 -> holds a stale copy of the word *)
    LD 0;                          (* drainer closes admission *)
    LS 1;                          (* sender 1: CAS fails, observes closed *)
